@@ -51,3 +51,18 @@ def _r13a_c03(p):
 @predicate("R13a-C06")
 def _r13a_c06(p):
     return not p.get("corr") and p.get("code", 0) % 10000 == 85
+
+
+@predicate("C16-otherchains-order")
+def _c16_otherchains_order(p):
+    """two blocks that differ only in the order of OtherChains: same mining blob, different block hash (conjunct 31)"""
+    if p.get("corr") or p.get("code") != 31:
+        return False
+    d = (p.get("record") or {}).get("data") or {}
+    if d.get("kind") != "mask" or d.get("mutation") != "other-chains-permuted":
+        return False
+    key = lambda c: (c["net"], c["hash"])
+    a, b = d.get("other_chains_1") or [], d.get("other_chains_2") or []
+    return (a != b and sorted(a, key=key) == sorted(b, key=key)
+            and d.get("base_hash_equal") is True and d.get("hashing_id_equal") is True
+            and d.get("mining_blob") == "equal" and d.get("block_hash_equal") is False)
